@@ -34,7 +34,7 @@ EXPLANATION = (
     'old value carried over only through a guarded set_value (also on the exception edge out of the carry-over), an unchanged key is untouched; R1b update_cmd_line_file records every value that is not None as str(value) and erases exactly when the value is None (same canonical atom as R1); R2c every comparison of choices_are_different has the same projection on both sides, one side per parameter, and covers choices/min_value/max_value for every option class declaring them; R2b keys are removed exactly when '
     'undeclared & project option & of this subproject; R3a every persistent writer and every may-raise statement after the '
     'coredata dump in MesonApp._generate is guarded by the handler that restores coredata.dat.prev/unlinks and re-raises '
-    '(suffix agrees with coredata.save); R3c no statement that may raise follows a cmd_line.txt write inside that try (the handler restores coredata only); R3b in mconf.run_impl cmd_line.txt/coredata are written only after '
+    '(suffix agrees with coredata.save); R3d on every path of coredata.save that publishes over an existing coredata.dat the backup copy precedes the publish (no other condition gates it); R2b also: every normal path of update_project_options passes the removal loop; R3c no statement that may raise follows a cmd_line.txt write inside that try (the handler restores coredata only); R3b in mconf.run_impl cmd_line.txt/coredata are written only after '
     'set_from_configure_command returned normally and its result decides the save; R4 --wipe copies cmd_line.txt and *.ini and '
     'reads the command line before deleting, restores in a finally inside the temporary directory scope; R5a-c the option file '
     'handed to OptionInterpreter.process for a subproject is its recorded file / depends on per-subproject data, and the same '
@@ -492,7 +492,7 @@ def _r1_acts(row: tables.Row) -> T.List[str]:
             elif 'set_user_option' in v:
                 acts.append(f'other set_user_option call `{v}`')
             else:
-                raise Undecided(f'set_from_configure_command: unknown dirty update `{e}`')
+                acts.append(f'dirty only if `{v}`')
         elif e.startswith('DIRTY:='):
             v = e[len('DIRTY:='):]
             if v == 'True':
@@ -501,7 +501,8 @@ def _r1_acts(row: tables.Row) -> T.List[str]:
                 acts.append('set+dirty')
             else:
                 acts.append(f'dirty flag overwritten (`{e}` forgets changes of earlier keys)')
-        elif e == 'DEL self.augments[KEY]' or e.startswith('CALL self.augments.pop(KEY'):
+        elif e == 'DEL self.augments[KEY]' or e.startswith('CALL self.augments.pop(KEY') or \
+                (':=self.augments.pop(KEY' in e and e.split(':=')[0].isidentifier() and e.split(':=')[0] != 'DIRTY'):
             acts.append('drop-augment')
         elif e.startswith('SET ') and '.yielding := ' in e:
             tgt, val = e[4:].split(' := ', 1)
@@ -533,6 +534,10 @@ def _r1_judge(row: tables.Row, want: str) -> T.Optional[str]:
     }[want]
     if acts in ok:
         return None
+    cond = [a for a in acts if a.startswith('dirty only if')]
+    if cond and want != 'drop-augment':
+        # only for a dropped augment is the reference "unconditionally dirty" (the augments table itself is persisted state)
+        raise Undecided(f'set_from_configure_command: unknown dirty update {cond[0]} on the `{want}` row')
     return 'does [' + ', '.join(acts) + ']' if acts else 'does nothing'
 
 
@@ -932,14 +937,30 @@ def r2b(ctx: RuleCtx) -> None:
     qn = 'OptionStore.update_project_options'
     fn = _inlined(mod, qn, ('add_project_option', 'set_option', 'remove', 'get_value_object', 'set_value', 'is_project_option'))
     params = _pos_params(fn)
-    loops = [s for s in fn.body if isinstance(s, ast.For) and _items_loop(s, params[0]) is None]
+    def removes(l: ast.For) -> bool:
+        return any((isinstance(c, ast.Call) and call_name(c) == 'self.remove') or
+                   (isinstance(c, ast.Delete) and any(norm(t).startswith('self.options[') for t in c.targets)) for b in l.body for c in ast.walk(b))
+    allfor = [n for n in walk_no_nested(fn) if isinstance(n, ast.For)]
+    loops = [l for l in allfor if _items_loop(l, params[0]) is None and removes(l)]
     if len(loops) != 1 or not isinstance(loops[0].target, ast.Name):
         raise Undecided(f'{qn}: expected one removal loop `for key in ...`')
     loop = loops[0]
-    first = [s for s in fn.body if isinstance(s, ast.For) and s is not loop]
-    ctx.require(bool(first) and fn.body.index(first[0]) < fn.body.index(loop), f'{qn}: removal runs after the declarations were merged', mod, qn,
-                'order of loops', 'the removal loop precedes the declaration loop')
-    it = _Rename({params[0]: 'ARG1', params[1]: 'ARG2'}).visit(copy.deepcopy(_resolve_local(fn, loop.iter)))
+    first = [l for l in allfor if _items_loop(l, params[0]) is not None]
+    cfg = CFG(fn)
+    rem_it = [n for n in cfg.nodes if n.kind == 'iter' and n.ast is loop]
+    dec_it = [n for n in cfg.nodes if n.kind == 'iter' and first and n.ast is first[0]]
+    ctx.require(bool(dec_it) and all(cfg.can_reach(d, r) for d in dec_it for r in rem_it) and not any(cfg.can_reach(r, d) for d in dec_it for r in rem_it),
+                f'{qn}: removal runs after the declarations were merged', mod, qn, 'order of loops', 'the removal loop does not follow the declaration loop')
+    # K1: every normal completion passes the removal loop - "a removed option vanishes" also when nothing (else) is declared
+    ctx.require(bool(rem_it) and cfg.must_pass(cfg.entry, cfg.exit_return, rem_it), f'{qn}: every normal path reaches the removal loop', mod, qn,
+                'normal path around the removal loop', 'update_project_options can return normally without running the loop that removes options the option '
+                'file no longer declares (e.g. an early return / a guard on the declared mapping): with such an option file the stale options stay', loop)
+    it0 = _resolve_local(fn, loop.iter)
+    it = _Rename({params[0]: 'ARG1', params[1]: 'ARG2'}).visit(copy.deepcopy(it0))
+    if isinstance(it, (ast.IfExp, ast.BoolOp)) and 'ARG1' in names_in(it.test if isinstance(it, ast.IfExp) else it.values[0]):
+        ctx.violation(mod, qn, norm(it), f'the removal candidates `{norm(it)}` depend on a test of the declared mapping itself; the reference is the stored '
+                      'keys minus the declared keys, whatever is declared', loop)
+        return
     stored = {'self.options.keys()', 'set(self.options)', 'set(self.options.keys())'}
     declared = {'ARG1.keys()', 'set(ARG1)', 'set(ARG1.keys())'}
     undeclared_only = isinstance(it, ast.BinOp) and isinstance(it.op, ast.Sub) and norm(it.left) in stored and norm(it.right) in declared
@@ -1298,6 +1319,48 @@ def r3a(ctx: RuleCtx) -> None:
         ctx.require(res.suffix == want, f'backup suffix {want!r} of coredata.save equals the one the handler restores from', mod, qn,
                     f'restore from suffix {res.suffix!r}', f'the handler restores from <coredata>{res.suffix!r} but coredata.save keeps the previous file as '
                     f'<coredata>{want!r}: the previous state is never restored', fn)
+
+
+def r3d(ctx: RuleCtx) -> None:
+    """Every save that publishes a new coredata.dat over an existing one first refreshes the backup the rollback restores."""
+    mod = ctx.repo.module(COREDATA)
+    qn = 'save'
+    fn = _inlined(mod, qn)
+    rets = [n for n in walk_no_nested(fn) if isinstance(n, ast.Return)]
+    if len(rets) != 1 or not isinstance(rets[0].value, ast.Name):
+        raise Undecided('coredata.save: result is not one variable')
+    body = _renamed(fn.body, {rets[0].value.id: 'FNAME'})
+    tab = _ptable(body, lambda st: ('CALL ' + norm(st.value)) if isinstance(st, ast.Expr) and isinstance(st.value, ast.Call) else None,
+                  keep={'FNAME'}, pure={'exists', 'isfile', 'major_versions_differ'}, name=qn)
+    exists = Atom('truth', ('os.path.exists(FNAME)',))
+    try:
+        suffix = _prev_suffix_of_save(mod)
+        backup = {f'CALL shutil.{f}(FNAME, FNAME + {suffix!r})' for f in ('copyfile', 'copy', 'copy2')}
+    except Undecided:
+        # no copy of <coredata.dat> to <coredata.dat> + constant anywhere in save (helpers inlined): no path refreshes a backup
+        suffix, backup = '.<backup>', set()
+    npub = 0
+    for r in tab.rows:
+        pubs = [i for i, e in enumerate(r.effects) if e.startswith(('CALL os.replace(', 'CALL os.rename(')) and e.endswith(', FNAME)')]
+        if not pubs:
+            if r.outcome[0] == 'return':
+                raise Undecided(f'coredata.save: a path returns without publishing coredata.dat: {r!r}')
+            continue
+        npub += 1
+        baks = [i for i, e in enumerate(r.effects) if e in backup]
+        gate = ' & '.join(('' if v else 'not ') + repr(a) for a, v in r.conds.items() if a != exists) or 'always'
+        if r.conds.get(exists) is False:
+            ctx.ok(f'coredata.save: path `{short(repr(r), 110)}`: no previous coredata.dat, nothing to back up')
+        elif baks and baks[0] < pubs[0]:
+            ctx.ok(f'coredata.save: path `{short(repr(r), 110)}`: backup refreshed before the new file is published')
+        elif baks:
+            ctx.violation(mod, qn, 'backup copied after publishing', f'on the path `{short(repr(r), 140)}` <coredata>{suffix!r} is copied after the new '
+                          'coredata.dat was published: the rollback of a failed reconfigure would restore the failed state', _row_node(r, fn))
+        else:
+            ctx.violation(mod, qn, f'backup skipped when: {gate}', f'on the path `{short(repr(r), 140)}` an existing coredata.dat is replaced without refreshing '
+                          f'<coredata>{suffix!r}: the handler of MesonApp._generate then restores a stale older generation after a failed reconfigure',
+                          _row_node(r, fn))
+    ctx.floor('coredata.save: publishing paths', npub, 2)
 
 
 _R3C_EXAMPLE = '''
@@ -1867,6 +1930,7 @@ RULES = [
     Rule('C08.R2b', 'update_project_options: undeclared keys of this subproject are removed', r2b),
     Rule('C08.R2c', 'choices_are_different: symmetric projections covering choices/min_value/max_value', r2c),
     Rule('C08.R3a', 'setup: writers after the coredata dump are guarded by the restoring handler', r3a),
+    Rule('C08.R3d', 'coredata.save: the rollback backup is refreshed before every overwrite', r3d),
     Rule('C08.R3b', 'configure: persisted only after the options were applied', r3b),
     Rule('C08.R3c', 'setup: cmd_line.txt is not left rewritten by a failing configuration', r3c),
     Rule('C08.R4', '--wipe: backup + read before deleting, restore in finally', r4),
